@@ -42,6 +42,10 @@ PROPS = {
                    "FitBase / ParametricModelBaseMixin / both constraint classes / MultiFit equals the documented formula; chi2 probability is "
                    "1 - chi2.cdf(cost - determinant, ndf) with every determinant subtraction guarded by the flag that says the cost contains it; goodness of "
                    "fit = cost(det:=0) - handle(model:=data); MultiFit overrides keep the terms of the base definitions."),
+    "C16": ("c16", "Canonical-form equality of the two conversion formulas with their documented forms; proof that they are mutual inverses by composing the "
+                   "extracted expressions and rewriting with the inverse pair gammainccinv/gammaincc (both directions normalise to the identity); the contour "
+                   "level 1-exp(-s^2/2) equals the n=2 instance; setters clear the other representation; dimension of every ConfidenceLevel call site; "
+                   "per-branch agreement of tail probability and converted level in the arrow computation; argument-slot rule along the profile call chain."),
 }
 
 
@@ -77,9 +81,15 @@ def main(prop, tier="quick", root="/repo", replay=None, write=True, selftest=Tru
                 rc = 1
         return rc
     R, explanation = run_property(prop, tier, root)
-    extra = None
+    extra = {}
     if tier == "thorough" and selftest:
         from . import selftest as st
 
-        extra = st.run_selftest(prop, root)
-    return R.finish(explanation, extra_cov=extra, write=write)
+        extra.update(st.run_selftest(prop, root))
+    from .manifest_data import CLAIMED
+
+    level = CLAIMED.get(prop, {}).get("category", "other")
+    if level == "proof":
+        extra["checker_cmd"] = "/venv/bin/python /verif/check %s --tier %s" % (prop, tier)
+        extra["trusted_base"] = CLAIMED[prop].get("trusted_base", ["kv.termform extraction and normalisation (ast, Fraction arithmetic)", "scipy.special functions are what they claim"])
+    return R.finish(explanation, level=level, extra_cov=extra or None, write=write)
